@@ -37,10 +37,11 @@ def gen_exp(rng):
     me, ml, mv = ren([t[0] for t in trip]), ren([t[1] for t in trip]), ren([t[2] for t in trip])
     trip = [(me[e], ml[l], mv[v]) for e, l, v in trip]
     zero = rng.random() < 0.08
+    clash = rng.choice(["learner_id", "environment_id", "evaluator_id"]) if rng.random() < 0.15 else None      # an evaluator column that carries the name of a key column (e.g. ids passed through from replayed logs)
     rows = []
     for i, t in enumerate(trip):
         n = 0 if (zero and i == len(trip) // 2) else rng.choice([1, 2, 3])
-        rows.append((t, [{"x": t[0] * 100 + t[1] * 10 + t[2] + j / 8, "s": rng.choice(["a", "é\n", "{\"", "long " * 6])} for j in range(n)]))
+        rows.append((t, [dict({"x": t[0] * 100 + t[1] * 10 + t[2] + j / 8, "s": rng.choice(["a", "é\n", "{\"", "long " * 6])}, **({clash: 7 + j} if clash else {})) for j in range(n)]))
     return dict(env_params=[{"e": i} for i in me], lrn_params=[{"l": i, "t": (1, 2)} for i in ml], val_params=[{"v": i} for i in mv], rows=rows, gz=rng.random() < 0.45, restored=False,
                 fail=[t for t in trip if rng.random() < 0.15], style=style)
 
@@ -234,6 +235,8 @@ def run(ctx):
                       rows=[((0, 0, 0), [{"x": 1}]), ((1, 0, 0), [{"x": 2}]), ((0, 1, 0), []), ((1, 1, 0), [{"x": 4}])])
         for gz in (False, True):
             c = dict(corpus, gz=gz); check_exp(ctx, c, tmp, 6, ctx.tier == "thorough" or ctx.escalated, reqs, metas)
+        # an evaluator whose rows carry a column named like a key column
+        check_exp(ctx, dict(corpus, rows=[(t, [dict(r, learner_id=5, environment_id=6) for r in rs]) for t, rs in corpus["rows"]]), tmp, 4, False, reqs, metas)
         # a long log (more than a thousand records): resuming rewrites the complete records through a sink of its own
         big = dict(env_params=[{"e": i} for i in range(36)], lrn_params=[{"l": i} for i in range(30)], val_params=[{}], gz=ctx.seed % 2 == 1, restored=False, fail=[], style="product",
                    rows=[((e, l, 0), [{"x": e * 100 + l}]) for e in range(36) for l in range(30)])
